@@ -1506,13 +1506,51 @@ class Interp:
         return saved
 
     def ev_GeneratorExp(self, node, st):
-        self.trust("genexp-eager", "generator expressions are evaluated eagerly (pure element expressions)")
+        """A generator expression is evaluated EAGERLY to the list of its items (an IterE).  That equals CPython's lazy
+        evaluation when (a) evaluating the element / condition expressions has no effect on anything that existed before
+        and does not raise - or the generator is the direct argument of a call that consumes it completely and at once
+        (list, tuple, sum, sorted, set, dict, min, max, str.join ...): checked here; (b) what it reads is unchanged when it
+        is consumed: the containers it iterates (lazy record) and, for a generator that is not consumed where it is
+        written, the variables it reads (IterE.free)."""
+        self.trust("genexp-eager", "generator expressions are evaluated eagerly (effect-free element expressions, or consumed completely at once)")
         from .loops import lazy_begin, lazy_end
 
+        full = getattr(node, "_pyvc_consumer", None) == "full"
+        immediate = getattr(node, "_pyvc_consumer", None) is not None
+        before = None if full else st.fork()
+        free = None
+        if not immediate:
+            own = {n.id for g in node.generators for n in ast.walk(g.target) if isinstance(n, ast.Name)}
+            fr = st.frame
+            fr.has_closures = True
+            free = (fr.fid, {n.id: fr.vars[n.id] for n in ast.walk(node)
+                             if isinstance(n, ast.Name) and isinstance(n.ctx, ast.Load) and n.id not in own and n.id in fr.vars})
         old = lazy_begin(st)
         for st1, r in self.ev_ListComp(node, st):
             lazy_end(st1, old, r)
+            if before is not None and (isinstance(r, Exc) or not self._unchanged(before, st1)):
+                raise Unsupported("a generator expression whose element expressions raise or change existing state is "
+                                  "evaluated eagerly only as the direct argument of list / tuple / sum / sorted / set / dict / min / max / join")
+            if not isinstance(r, Exc):
+                e = IterE(st1.get(r).items)
+                e.free = free
+                st1.store[r.id] = e
             yield st1, r
+
+    def _unchanged(self, before, after):
+        """nothing that existed in `before` differs in `after`: store entries, abstract heap, module globals rebound on the
+        path, variables of every frame (new store entries and new variables of the top frame are allowed)"""
+        if not self._same_store(before, after):
+            return False
+        for k, v in after.ghost.items():
+            if isinstance(k, tuple) and k and k[0] == "modglobal" and before.ghost.get(k, self) is not v:
+                return False
+        if len(before.frames) != len(after.frames):
+            return False
+        for fa, fb in zip(before.frames, after.frames):
+            if any(k in fb.vars and fb.vars[k] is not v for k, v in fa.vars.items()):
+                return False
+        return True
 
     def ev_SetComp(self, node, st):
         for st1, r in self.ev_ListComp(node, st):
@@ -1587,6 +1625,10 @@ class Interp:
             plain = []
             for a in node.args:
                 plain.append(a.value if isinstance(a, ast.Starred) else a)
+            consumer = "full" if self._full_consumer(f) else "other"
+            for a in node.args:
+                if isinstance(a, (ast.GeneratorExp, ast.Call)):
+                    a._pyvc_consumer = consumer  # who consumes a lazy iterator created by this argument (ev_GeneratorExp, _lazy_ctx)
             for st2, avs in self.ev_many(plain, st1):
                 if isinstance(avs, Exc):
                     yield st2, avs
@@ -1611,7 +1653,51 @@ class Interp:
                             kwargs.update(e.items)
                         else:
                             kwargs[k.arg] = v
-                    yield from self.call(f, args, kwargs, st3, node)
+                    if not self._makes_iterator(f):
+                        yield from self.call(f, args, kwargs, st3, node)
+                        continue
+                    # zip / map / filter / enumerate / reversed / iter / itertools.* / a generator function: the items are
+                    # computed NOW although CPython computes them when the iterator is consumed.  Same rule as for generator
+                    # expressions (ev_GeneratorExp): computing them must be effect-free and must not raise, unless the
+                    # iterator is the direct argument of a call that consumes it completely at once.
+                    before = None if getattr(node, "_pyvc_consumer", None) == "full" else st3.fork()
+                    for st4, r in self.call(f, args, kwargs, st3, node):
+                        if before is not None and (isinstance(r, Exc) or not self._unchanged(before, st4)):
+                            raise Unsupported("a lazy iterator (map / filter / zip / generator function ...) whose items raise or change "
+                                              "existing state when computed is evaluated eagerly only as the direct argument of "
+                                              "list / tuple / sum / sorted / set / dict / min / max / join")
+                        if isinstance(r, Ref) and type(st4.get(r)) is ListE:
+                            st4.store[r.id] = IterE(st4.get(r).items)  # an iterator object, not a list
+                        yield st4, r
+
+    _FULL_BUILTINS = frozenset(("sum", "sorted", "min", "max", "str.join", "list.extend", "set.update", "dict.update", "deque.extend"))
+    _FULL_CLASSES = frozenset(("list", "tuple", "set", "frozenset", "dict", "deque"))
+
+    _LAZY_BUILTINS = frozenset(("zip", "map", "filter", "enumerate", "reversed", "iter", "itertools.product", "itertools.chain",
+                                "itertools.chain.from_iterable", "itertools.islice", "itertools.zip_longest"))
+
+    def _makes_iterator(self, f):
+        if isinstance(f, Builtin):
+            return f.name in self._LAZY_BUILTINS
+        if isinstance(f, BoundMethod):
+            f = f.func
+        if isinstance(f, FuncVal) and isinstance(f.node, ast.FunctionDef):
+            q = f.qualname()
+            if q in self.stubs:
+                f = self.stubs[q]
+            isgen = f.node.__dict__.get("_pyvc_isgen")
+            if isgen is None:
+                isgen = f.node._pyvc_isgen = any(isinstance(n, (ast.Yield, ast.YieldFrom)) for n in self._walk_own(f.node))
+            return isgen
+        return False
+
+    def _full_consumer(self, f):
+        """the callee consumes an iterator argument completely, in order and before doing anything else"""
+        if isinstance(f, Builtin):
+            return f.name in self._FULL_BUILTINS
+        if isinstance(f, BuiltinClass):
+            return f.name in self._FULL_CLASSES
+        return False
 
     def _self_name(self, fr):
         if fr.func is not None and isinstance(fr.func.node, ast.FunctionDef) and fr.func.node.args.args:
@@ -1887,6 +1973,8 @@ class Interp:
             return len(v.items) > 0
         if isinstance(v, Ref):
             e = st.get(v)
+            if e.__class__ is IterE:
+                return True  # an iterator object has neither __bool__ nor __len__: always true
             if e.kind in ("list", "deque", "set", "dict", "numset"):
                 return len(e.items) > 0
             if e.kind == "symlist":
